@@ -628,6 +628,25 @@ static void build(vf::Plan &plan, const vf::Opts &o)
                               });
         st.case_timeout_s = 10;
     }
+    {
+        auto cases = std::make_shared<std::vector<lp::LN>>(lp::cases_very_long());
+        auto &st = plan.stage("very long patterns: lengths {255,256,257,258,300,1030}, one byte perturbed at positions next to the ends, the middle and 254..257",
+                              cases->size(),
+                              [cases, BOTH](uint64_t i, Ctx &c) {
+                                  std::string text, pat;
+                                  lp::make((*cases)[i], text, pat, true);
+                                  bool nt = false;
+                                  check_split(c, text, pat, UINT64_MAX, nt);
+                                  check_replace(c, text, pat, "-", BOTH, nt);
+                                  if (nt) c.nontrivial();
+                              },
+                              [cases](uint64_t i) {
+                                  std::string text, pat;
+                                  lp::make((*cases)[i], text, pat, true);
+                                  return strf("s=%s pattern=%s", vf::vis(text.substr(0, 60)).c_str(), vf::vis(pat.substr(0, 60)).c_str());
+                              });
+        st.case_timeout_s = 20;
+    }
     vf_early::add_stage(plan);
 }
 
